@@ -56,7 +56,7 @@ WrapBin == [WrappingAdd |-> "+", WrappingMul |-> "*"]
 FltUnOps == [Ceil |-> "ceil", Floor |-> "floor", Round |-> "round", SquareRoot |-> "sqrt"]
 \* dest, reg with an uninterpreted result
 OpaqueUn == {"Sin", "Cos", "Tan", "Asin", "Acos", "Atan", "Log", "Log2", "Log10", "StringFromInt", "StringFromFloat",
-             "ArrayLength", "ArrayPop", "StringCountBytes"}
+             "StringCountBytes"}
 \* resumable string instructions re-execute themselves (pc unchanged) until the whole operation is done
 Resumable == {"EqualString", "LessThanString", "LessThanOrEqualString", "GreaterThanString", "GreaterThanOrEqualString",
               "ConcatStrings"}
@@ -80,11 +80,14 @@ Sig(op) ==
        \/ In(op, WrapBin) \/ op = "EqualBool" -> <<"reg", "reg", "reg">>
     [] In(op, IntImmOps) \/ In(op, IntCmpImmOps) -> <<"reg", "reg", "ki">>
     [] In(op, FltImmOps) \/ In(op, FltCmpImmOps) -> <<"reg", "reg", "kf">>
-    [] In(op, FltUnOps) \/ op \in OpaqueUn \/ op \in {"Not", "FloatFromInt", "IntFromFloat"} -> <<"reg", "reg">>
+    [] In(op, FltUnOps) \/ op \in OpaqueUn \/ op \in {"Not", "FloatFromInt", "IntFromFloat", "ArrayLength", "ArrayPop"}
+         -> <<"reg", "reg">>
     [] op \in {"GetField", "SetField"} -> <<"n", "reg">>
     [] op \in {"GetIndex", "SetIndex", "ArrayPush"} -> <<"reg", "reg">>
     [] op = "ArrayPushIntImm" -> <<"reg", "ki">>
     [] op \in {"Jump", "JumpIf", "JumpIfFalse"} -> <<"pc">>
+    [] op \in {"ConstructStruct", "ConstructArray", "MakeClosure", "ConstructVariant"} -> <<"n">>
+    [] op \in {"DeconstructStruct", "DeconstructArray", "DeconstructVariant"} -> <<>>
     [] OTHER -> <<"?">>
 Modelled(op) == Sig(op) # <<"?">>
 
@@ -105,6 +108,8 @@ FromFlt(r) == CASE r.k = "bits" -> PVal(FV(r.bits))
                 [] OTHER -> POpen
 
 Two64 == MAdd(M63, M63)
+FlOne == MMul(MFromNat(1023), M52)                 \* bit pattern of 1.0
+FlHalf == MMul(MFromNat(1022), M52)                \* bit pattern of 0.5
 \* two's-complement wrap of an exact integer into 64 bits
 Wrap64(x) == LET r == EMod(x, Mk(FALSE, Two64)) IN IF Cmp(r, Two63) >= 0 THEN Sub(r, Mk(FALSE, Two64)) ELSE r
 
@@ -138,7 +143,16 @@ FltUn(mode, a) ==
 \*      open: number of operations on concrete operands this model does not decide]
 \* A cell that is not known reads as the symbol <<"cell", index>>.
 Next == [k |-> "next"]
-Cell(st, i) == IF i \in DOMAIN st.mem THEN st.mem[i] ELSE SymV(<<"cell", i>>)
+\* st.env says what an unknown cell holds: [k |-> "sym"] a symbol of its own; [k |-> "int" | "flt" | "bool", r] the value
+\* number (index + r) of a fixed list of boundary values (used to look for a concrete witness, see TraceVM)
+IntSamples == <<Zero, Big(1), Big(-1), Big(2), MinI64, MaxI64, Big(7)>>
+FltSamples == <<<<>>, M63, FlOne, WithSign(TRUE, FlOne), MInfBits, QNaNBits, FlHalf>>      \* +0 -0 1 -1 inf NaN 0.5
+Default(env, i) ==
+  CASE env.k = "sym" -> SymV(<<"cell", i>>)
+    [] env.k = "int" -> IV(IntSamples[((i + env.r) % Len(IntSamples)) + 1])
+    [] env.k = "flt" -> FV(FltSamples[((i + env.r) % Len(FltSamples)) + 1])
+    [] env.k = "bool" -> BV((i + env.r) % 2 = 0)
+Cell(st, i) == IF i \in DOMAIN st.mem THEN st.mem[i] ELSE Default(st.env, i)
 Upd(m, i, v) == [j \in (DOMAIN m) \cup {i} |-> IF j = i THEN v ELSE m[j]]
 Push(st, v) == [st EXCEPT !.mem = Upd(st.mem, st.len, v), !.len = st.len + 1]
 PopV(st) == Cell(st, st.len - 1)
@@ -186,6 +200,24 @@ Un2(st, ins, f(_), ty, name) ==
      ELSE IF IsConc(a) THEN Fail(s1, "wrongtype")
      ELSE Fin(s1, d, POpen, term, FALSE)
 
+\* ---- heap objects (one level): st.heap maps the key of a reference to
+\*   [k |-> "struct", fs]   [k |-> "array", len, es (the first elements, at most ArrCap)]   [k |-> "variant", tag, val]
+\* Only objects recorded from the real VM are in it (the symbolic start state has an empty heap: data-structure
+\* instructions on unknown references stay uninterpreted).  A freshly allocated object is the value [t |-> "new", obj].
+ArrCap == 8
+NewV(o) == [t |-> "new", obj |-> o]
+HasObj(st, v, kind) == v.t = "r" /\ v.v \in DOMAIN st.heap /\ st.heap[v.v].k = kind
+SetObj(st, v, o) == [st EXCEPT !.heap = [r \in DOMAIN st.heap |-> IF r = v.v THEN o ELSE st.heap[r]]]
+Skip(st) == [st EXCEPT !.ctl = [k |-> "skip"]]               \* the model cannot follow this step (an object it was not shown)
+\* an index as a TLC integer (-1: negative; 10^8: at least 10^8, beyond any array length that occurs)
+SmallIdx(n) == IF n.neg THEN -1 ELSE IF Len(n.mag) >= 3 THEN 100000000
+               ELSE IF n.mag = <<>> THEN 0 ELSE n.mag[1] + (IF Len(n.mag) = 2 THEN 10000 * n.mag[2] ELSE 0)
+RECURSIVE PushSeq(_, _, _)
+PushSeq(st, vs, i) == IF i > Len(vs) THEN st ELSE PushSeq(Push(st, vs[i]), vs, i + 1)
+Rev(vs) == [i \in 1..Len(vs) |-> vs[Len(vs) + 1 - i]]
+TopN(st, n) == [i \in 1..n |-> Cell(st, st.len - n + i - 1)]
+PopN(st, n) == [st EXCEPT !.len = st.len - n]
+
 \* the semantic name under which a register form and its immediate form denote the same operation
 SemName(op) ==
   CASE In(op, IntBinOps) -> <<"int", IntBinOps[op]>>     [] In(op, IntImmOps) -> <<"int", IntImmOps[op]>>
@@ -228,26 +260,72 @@ Exec(st, ins) ==
                                                      IF r.k = "int" THEN PVal(IV(r.v)) ELSE POpen, "f", nm)
     [] op \in OpaqueUn -> Un2(st, ins, LAMBDA a: POpen, "any", nm)
     [] op = "GetField" ->                       \* index, reg: the field of the struct in reg is pushed
-         LET s == RdV(st, ins.args[2])  term == App(nm, <<ins.args[1], s>>) IN
-         Push(Effect(RdS(st, ins.args[2]), term), term)
+         LET s == RdV(st, ins.args[2])  s1 == RdS(st, ins.args[2])  term == App(nm, <<ins.args[1], s>>) IN
+         IF HasObj(st, s, "struct") THEN Push(s1, st.heap[s.v].fs[ins.args[1] + 1])
+         ELSE Push(Effect(s1, term), term)
     [] op = "SetField" ->                       \* index, reg: the struct is read from reg, then the new value is popped
-         LET s == RdV(st, ins.args[2])  s1 == RdS(st, ins.args[2])  v == PopV(s1) IN
-         Effect(PopS(s1), App(nm, <<ins.args[1], s, v>>))
+         LET s == RdV(st, ins.args[2])  s1 == RdS(st, ins.args[2])  v == PopV(s1)  s2 == PopS(s1) IN
+         IF HasObj(st, s, "struct")
+         THEN SetObj(s2, s, [st.heap[s.v] EXCEPT !.fs[ins.args[1] + 1] = v])
+         ELSE Effect(s2, App(nm, <<ins.args[1], s, v>>))
     [] op = "GetIndex" ->                       \* reg1 = array, reg2 = index: index read first, element pushed
          LET i == RdV(st, ins.args[2])  s1 == RdS(st, ins.args[2])
              a == RdV(s1, ins.args[1])  s2 == RdS(s1, ins.args[1])  term == App(nm, <<a, i>>) IN
-         Push(Effect(s2, term), term)
+         IF HasObj(st, a, "array") /\ i.t = "i"
+         THEN LET o == st.heap[a.v]  k == SmallIdx(i.v) IN
+              IF k < 0 \/ k >= o.len THEN Fail(s2, "oob")
+              ELSE IF k < Len(o.es) THEN Push(s2, o.es[k + 1])
+              ELSE Push(s2, term)
+         ELSE Push(Effect(s2, term), term)
     [] op = "SetIndex" ->                       \* reg2 = new value (read first), reg1 = index, then the array is popped
          LET v == RdV(st, ins.args[2])  s1 == RdS(st, ins.args[2])
-             i == RdV(s1, ins.args[1])  s2 == RdS(s1, ins.args[1])  a == PopV(s2) IN
-         Effect(PopS(s2), App(nm, <<a, i, v>>))
-    [] op = "ArrayPush" ->                      \* reg1 = array, reg2 = value (read first)
-         LET v == RdV(st, ins.args[2])  s1 == RdS(st, ins.args[2])
+             i == RdV(s1, ins.args[1])  s2 == RdS(s1, ins.args[1])  a == PopV(s2)  s3 == PopS(s2) IN
+         IF HasObj(st, a, "array") /\ i.t = "i"
+         THEN LET o == st.heap[a.v]  k == SmallIdx(i.v) IN
+              IF k < 0 \/ k >= o.len THEN Fail(s3, "oob")
+              ELSE IF k < Len(o.es) THEN SetObj(s3, a, [o EXCEPT !.es[k + 1] = v])
+              ELSE s3
+         ELSE Effect(s3, App(nm, <<a, i, v>>))
+    [] op \in {"ArrayPush", "ArrayPushIntImm"} ->   \* reg1 = array, reg2 = value (read first) / immediate
+         LET imm == op = "ArrayPushIntImm"
+             v == IF imm THEN ins.args[2] ELSE RdV(st, ins.args[2])
+             s1 == IF imm THEN st ELSE RdS(st, ins.args[2])
              a == RdV(s1, ins.args[1])  s2 == RdS(s1, ins.args[1]) IN
-         Effect(s2, App(nm, <<a, v>>))
-    [] op = "ArrayPushIntImm" ->
-         LET a == RdV(st, ins.args[1])  s1 == RdS(st, ins.args[1]) IN
-         Effect(s1, App(nm, <<a, ins.args[2]>>))
+         IF HasObj(st, a, "array")
+         THEN LET o == st.heap[a.v] IN
+              SetObj(s2, a, [o EXCEPT !.len = o.len + 1, !.es = IF o.len = Len(o.es) /\ o.len < ArrCap THEN Append(o.es, v) ELSE o.es])
+         ELSE Effect(s2, App(nm, <<a, v>>))
+    [] op = "ArrayLength" ->                    \* dest, reg
+         LET a == RdV(st, ins.args[2])  s1 == RdS(st, ins.args[2])  term == App(nm, <<a>>) IN
+         IF HasObj(st, a, "array") THEN Wr(s1, ins.args[1], IV(Big(st.heap[a.v].len)))
+         ELSE Wr(Effect(s1, term), ins.args[1], term)
+    [] op = "ArrayPop" ->                       \* dest, reg: the last element; an empty array is an out-of-bounds error
+         LET a == RdV(st, ins.args[2])  s1 == RdS(st, ins.args[2])  term == App(nm, <<a>>) IN
+         IF HasObj(st, a, "array")
+         THEN LET o == st.heap[a.v] IN
+              IF o.len = 0 THEN Fail(s1, "oob")
+              ELSE IF o.len = Len(o.es)
+                   THEN Wr(SetObj(s1, a, [o EXCEPT !.len = o.len - 1, !.es = SubSeq(o.es, 1, o.len - 1)]), ins.args[1], o.es[o.len])
+                   ELSE Wr(SetObj(s1, a, [o EXCEPT !.len = o.len - 1]), ins.args[1], term)
+         ELSE Wr(Effect(s1, term), ins.args[1], term)
+    [] op \in {"ConstructStruct", "MakeClosure"} ->     \* the top n values (a closure: the code address and n captures) become
+         LET n == ins.args[1] + (IF op = "MakeClosure" THEN 1 ELSE 0) IN      \* the fields of a new struct, bottom first
+         Push(PopN(st, n), NewV([k |-> "struct", fs |-> TopN(st, n)]))
+    [] op = "ConstructArray" ->
+         LET n == ins.args[1]  vs == TopN(st, n) IN
+         Push(PopN(st, n), NewV([k |-> "array", len |-> n, es |-> IF n <= ArrCap THEN vs ELSE SubSeq(vs, 1, ArrCap)]))
+    [] op = "ConstructVariant" ->               \* tag: the top value becomes the payload of a new variant
+         Push(PopS(st), NewV([k |-> "variant", tag |-> ins.args[1], val |-> PopV(st)]))
+    [] op = "DeconstructStruct" ->              \* the fields are pushed last-first (the first field ends on top)
+         LET s == PopV(st) IN
+         IF HasObj(st, s, "struct") THEN PushSeq(PopS(st), Rev(st.heap[s.v].fs), 1) ELSE Skip(st)
+    [] op = "DeconstructArray" ->
+         LET a == PopV(st) IN
+         IF HasObj(st, a, "array") /\ st.heap[a.v].len = Len(st.heap[a.v].es)
+         THEN PushSeq(PopS(st), Rev(st.heap[a.v].es), 1) ELSE Skip(st)
+    [] op = "DeconstructVariant" ->             \* the payload replaces the variant, the tag is pushed on top of it
+         LET v == PopV(st) IN
+         IF HasObj(st, v, "variant") THEN Push(Push(PopS(st), st.heap[v.v].val), IV(Big(st.heap[v.v].tag))) ELSE Skip(st)
     [] op = "Jump" -> [st EXCEPT !.ctl = [k |-> "jump", to |-> ins.args[1]]]
     [] op \in {"JumpIf", "JumpIfFalse"} ->
          LET c == PopV(st)  s1 == PopS(st)  want == (op = "JumpIf") IN
@@ -264,11 +342,14 @@ Run(st, code, i) == IF i > Len(code) \/ st.ctl # Next THEN st ELSE Run(Exec(st, 
 \* (TraceSched checks `depth never below the frame base` on every recorded step).
 SymBase == 100000
 SymLen == 200000
-Sym0 == [mem |-> <<>>, len |-> SymLen, base |-> SymBase, ctl |-> Next, eff |-> <<>>, open |-> 0]
+Start(env) == [mem |-> <<>>, len |-> SymLen, base |-> SymBase, ctl |-> Next, eff |-> <<>>, open |-> 0, env |-> env, heap |-> <<>>]
+Sym0 == Start([k |-> "sym"])
+\* concrete start states used to look for a witness when two windows are not symbolically equal
+Envs == {[k |-> t, r |-> r] : t \in {"int", "flt", "bool"}, r \in 0..6}
 \* Two windows are equivalent when they leave the same live cells, the same depth, the same control outcome and the same
 \* sequence of effects.  (Cells at or above the final depth are dead: the next push overwrites them.)
 Equivalent(s1, s2) ==
-  /\ s1.len = s2.len /\ s1.ctl = s2.ctl /\ s1.eff = s2.eff
+  /\ s1.len = s2.len /\ s1.ctl = s2.ctl /\ s1.eff = s2.eff /\ s1.heap = s2.heap
   /\ \A i \in (DOMAIN s1.mem) \cup (DOMAIN s2.mem) : i < s1.len => Cell(s1, i) = Cell(s2, i)
 
 \* ------------------------------------------------------------------ assembling (assembly.rs instr_to_vminstr)
